@@ -635,6 +635,17 @@ def run_shard(ctx, spec):
             ctx.case(digest(['odd-wrong', fn, pos, odd]), True, ['odd-wrong:' + odd], {'call': fn, 'position': pos, 'argument': odd})
             n += 1
         ctx.exhaustive['every typed parameter of the %d functions x odd wrong-typed values (%d calls)' % (len(Machine.SIGNATURES), n)] = True
+        # regexEscape, exhaustively on short strings: everything of length <= 4 over the characters of a repetition count, every pair of the alphabet
+        import itertools
+        texts = [''.join(t) for k in range(0, 5) for t in itertools.product('a{},1', repeat=k)]
+        texts += [x + y for x in ESC_ALPHABET for y in ESC_ALPHABET] + ['a{2}', 'id{1,3}', 'x{,}', '{3}x', 'f(x){2,}', 'path/{0}/item', 'a{1,2}b{3}', '(?i)a', '(?#c)', '\\Qa\\E', '[[:alpha:]]']
+        for t in sorted(set(texts)):
+            try:
+                check_regex_escape(t)
+            except Violation as v:
+                ctx.violation(v)
+            ctx.case(digest(['regexEscape', t]), bool(set(t) & set('.*+?()[]{}|^$\\')), ['regexEscape-short-exhaustive'], {'regexEscape': t})
+        ctx.exhaustive['regexEscape: all strings of length <= 4 over a { } , 1 and all pairs of the %d-symbol alphabet' % len(ESC_ALPHABET)] = True
         return
     Machine.ctx = ctx
     suppressed = set()
